@@ -13,11 +13,17 @@ fn cut_lines_forward_only<A: BufRead, B: Write>(
     opt: &Opt,
 ) -> Result<()> {
     let mut line_buf = String::with_capacity(1024);
-    let mut line_idx = 0;
+    // line numbers are i32, like the indexes of the bounds: the lines after the
+    // 2^31-1st cannot be named by any index, only an open-ended bound covers them
+    let mut line_idx: i32 = 0;
+    let mut past_last_index = false;
     let mut bounds_idx = 0; // keep track of which bounds have been used
     let mut add_newline_next = false;
     while let Some(line) = read_line_with_eol(stdin, &mut line_buf, opt.eol) {
-        line_idx += 1;
+        match line_idx.checked_add(1) {
+            Some(n) => line_idx = n,
+            None => past_last_index = true,
+        }
 
         let line = line?;
         let line: &str = line.as_ref();
@@ -43,7 +49,13 @@ fn cut_lines_forward_only<A: BufRead, B: Write>(
                 BoundOrFiller::Bound(b) => b,
             };
 
-            if b.matches(line_idx).unwrap_or(false) {
+            let is_match = if past_last_index {
+                b.r == Side::Continue
+            } else {
+                b.matches(line_idx).unwrap_or(false)
+            };
+
+            if is_match {
                 if add_newline_next {
                     stdout.write_all(&[opt.eol as u8])?;
                 }
@@ -51,7 +63,7 @@ fn cut_lines_forward_only<A: BufRead, B: Write>(
                 stdout.write_all(line.as_bytes())?;
                 add_newline_next = true;
 
-                if b.r == Side::Some(line_idx) {
+                if !past_last_index && b.r == Side::Some(line_idx) {
                     // we exhausted the use of that bound, move on
                     bounds_idx += 1;
                     add_newline_next = false;
